@@ -1,6 +1,7 @@
 (* C12 - quarter-turn rotations move values, vectors, validity and geometry together.
    Statements only; proofs in proofs/C12_rot.v, C12_cov.v, C12_field.v, C12_inplace.v. *)
-From DF Require Import Prelude Constants_gen FieldK NDArray Region Mesh Rotate90 C12_rot C12_cov C12_field C12_inplace C12_compose C12_compose2 C12_link C12_examples C12_bc.
+From Coq Require Import Qcanon.
+From DF Require Import Prelude Constants_gen FieldK NDArray Region Mesh Rotate90 C12_rot C12_cov C12_field C12_inplace C12_compose C12_compose2 C12_link C12_examples C12_bc ListLemmas CheckSound Check_C12 C12_sound.
 Open Scope Q_scope.
 
 (* --- covariance, geometry: for every cell i of a well-formed mesh, the centre of cell
@@ -344,3 +345,213 @@ Theorem C12_inplace_eq_copy_field : forall K (f : field K) a b k ref,
   field_rotate90 K true f a b k ref = field_rotate90 K false f a b k ref.
 Proof. exact field_inplace_eq_copy. Qed.
 Print Assumptions C12_inplace_eq_copy_field.
+
+(* ====== the tie, proved: a shard case that check_C12 evaluates to true certifies that the OBSERVED
+   output of Region / Mesh / Field .rotate90 is the model's value on the recorded input.
+   region_obs / mesh_obs e: corners within e (Qabs (model - observed) <= e) of the model's, dims and
+   units equal; cell counts equal; subregions by name and corners; bc the same set of periodic
+   axes.  e = tol ex * geom_scale: 0 in the exact regime, 1e-13 * largest coordinate otherwise.
+   in_mesh / in_field: the mesh / field record the checker builds from the recorded input. ====== *)
+Theorem C12_check_region_sound : forall ex ip p1 p2 ds us a b k ref o,
+  check_C12 (CRegion ex ip p1 p2 ds us a b k ref (Some o)) = true ->
+  exists r, region_rotate90 ip (mk_reg p1 p2 ds us) a b k ref = OK r /\
+            region_obs (tol ex * geom_scale p1 p2 ref) r o.
+Proof. exact check_region_sound. Qed.
+Print Assumptions C12_check_region_sound.
+
+(* exact regime: corners by equality *)
+Theorem C12_check_region_exact_sound : forall ip p1 p2 ds us a b k ref omin omax ods ous,
+  check_C12 (CRegion true ip p1 p2 ds us a b k ref (Some (omin, omax, ods, ous))) = true ->
+  exists r, region_rotate90 ip (mk_reg p1 p2 ds us) a b k ref = OK r /\
+            Forall2 Qeq (pmin r) omin /\ Forall2 Qeq (pmax r) omax /\ dims r = ods /\ units r = ous.
+Proof. exact check_region_exact_sound. Qed.
+Print Assumptions C12_check_region_exact_sound.
+
+Theorem C12_check_region_reject_sound : forall ex ip p1 p2 ds us a b k ref,
+  check_C12 (CRegion ex ip p1 p2 ds us a b k ref None) = true ->
+  exists e, region_rotate90 ip (mk_reg p1 p2 ds us) a b k ref = Err e.
+Proof. exact check_region_reject_sound. Qed.
+Print Assumptions C12_check_region_reject_sound.
+
+Theorem C12_check_mesh_sound : forall ex ip p1 p2 ds us ns sbs bcs a b k ref o,
+  check_C12 (CMesh ex ip p1 p2 ds us ns sbs bcs a b k ref (Some o)) = true ->
+  exists m', mesh_rotate90 ip (in_mesh p1 p2 ds us ns sbs bcs) a b k ref = OK m' /\
+             mesh_obs (tol ex * geom_scale p1 p2 ref) m' o.
+Proof. exact check_mesh_sound. Qed.
+Print Assumptions C12_check_mesh_sound.
+
+Theorem C12_check_mesh_reject_sound : forall ex ip p1 p2 ds us ns sbs bcs a b k ref,
+  check_C12 (CMesh ex ip p1 p2 ds us ns sbs bcs a b k ref None) = true ->
+  exists e, mesh_rotate90 ip (in_mesh p1 p2 ds us ns sbs bcs) a b k ref = Err e.
+Proof. exact check_mesh_reject_sound. Qed.
+Print Assumptions C12_check_mesh_reject_sound.
+
+(* values, validity, labels and mapping by equality in both regimes; geometry as for the mesh *)
+Theorem C12_check_field_sound :
+  forall ex ip p1 p2 ds us ns sbs bcs nv vals valid vds vm a b k ref om ovals ovalid ovds ovm,
+  check_C12 (CField ex ip p1 p2 ds us ns sbs bcs nv vals valid vds vm a b k ref
+               (Some (om, ovals, ovalid, ovds, ovm))) = true ->
+  length vals = nprod (znat ns ++ [nv]) /\ length valid = nprod (znat ns) /\
+  exists g, field_rotate90 QcOps ip (in_field p1 p2 ds us ns sbs bcs nv vals valid vds vm) a b k ref = OK g /\
+    mesh_obs (tol ex * geom_scale p1 p2 ref) (fmesh g) om /\
+    qcl ovals = to_list (fshape g ++ [nv]) (fval g) /\
+    ovalid = to_list (fshape g) (fvalid g) /\
+    vdims g = ovds /\ vmap g = ovm.
+Proof. exact check_field_sound. Qed.
+Print Assumptions C12_check_field_sound.
+
+Theorem C12_check_field_reject_sound :
+  forall ex ip p1 p2 ds us ns sbs bcs nv vals valid vds vm a b k ref,
+  check_C12 (CField ex ip p1 p2 ds us ns sbs bcs nv vals valid vds vm a b k ref None) = true ->
+  exists e, field_rotate90 QcOps ip (in_field p1 p2 ds us ns sbs bcs nv vals valid vds vm) a b k ref = Err e.
+Proof. exact check_field_reject_sound. Qed.
+Print Assumptions C12_check_field_reject_sound.
+
+(* a whole shard: no failing index means every case was accepted *)
+Theorem C12_shard_verdict : forall cases k,
+  failing k (map check_C12 cases) = [] -> forall c, In c cases -> check_C12 c = true.
+Proof. exact (failing_nil_all check_C12). Qed.
+Print Assumptions C12_shard_verdict.
+
+(* the checker builds its input records without going through the constructors; their
+   well-formedness (the hypothesis of the theorems above) is decided by a boolean test *)
+Theorem C12_input_wf_region : forall p1 p2 ds us ns,
+  wf_inputb p1 p2 ds us ns = true -> wf_region (mk_reg p1 p2 ds us).
+Proof. exact wf_inputb_region. Qed.
+Print Assumptions C12_input_wf_region.
+
+Theorem C12_input_wf_mesh : forall p1 p2 ds us ns sbs bcs,
+  wf_inputb p1 p2 ds us ns = true -> wf_mesh (in_mesh p1 p2 ds us ns sbs bcs).
+Proof. exact wf_inputb_mesh. Qed.
+Print Assumptions C12_input_wf_mesh.
+
+(* ====== transfer: the C12 theorems stated about the OBSERVED output ====== *)
+
+(* C12_region_box on the observation (exact regime): the observed corners are the rotated box,
+   axis by axis, the observed units are the exchanged ones *)
+Theorem C12_accepted_region_box : forall ip p1 p2 ds us a b k ref omin omax ods ous R i1 i2,
+  check_C12 (CRegion true ip p1 p2 ds us a b k ref (Some (omin, omax, ods, ous))) = true ->
+  wf_region (mk_reg p1 p2 ds us) ->
+  rot_reference (mk_reg p1 p2 ds us) ref = OK R ->
+  dim2index (mk_reg p1 p2 ds us) a = OK i1 -> dim2index (mk_reg p1 p2 ds us) b = OK i2 ->
+  length omin = length p1 /\ length omax = length p1 /\
+  ods = ds /\ ous = rot_units k i1 i2 us /\
+  forall j, (j < length p1)%nat ->
+    nth j omin 0 == fst (rbox k i1 i2 j R p1 p2) /\
+    nth j omax 0 == snd (rbox k i1 i2 j R p1 p2).
+Proof. exact accepted_region_box. Qed.
+Print Assumptions C12_accepted_region_box.
+
+(* C12_region_wellformed on the observation: observed pmin < observed pmax on every axis *)
+Theorem C12_accepted_region_ordered : forall ip p1 p2 ds us a b k ref omin omax ods ous,
+  check_C12 (CRegion true ip p1 p2 ds us a b k ref (Some (omin, omax, ods, ous))) = true ->
+  wf_region (mk_reg p1 p2 ds us) ->
+  length omin = length omax /\ forall j, (j < length omin)%nat -> nth j omin 0 < nth j omax 0.
+Proof. exact accepted_region_ordered. Qed.
+Print Assumptions C12_accepted_region_ordered.
+
+(* C12_inplace_eq_copy_region on two observations: the in-place call and the copying call, both
+   accepted on the same input, were observed to produce the same region *)
+Theorem C12_accepted_inplace_eq_copy :
+  forall p1 p2 ds us a b k ref omin omax ods ous omin' omax' ods' ous',
+  check_C12 (CRegion true true p1 p2 ds us a b k ref (Some (omin, omax, ods, ous))) = true ->
+  check_C12 (CRegion true false p1 p2 ds us a b k ref (Some (omin', omax', ods', ous'))) = true ->
+  wf_region (mk_reg p1 p2 ds us) ->
+  Forall2 Qeq omin omin' /\ Forall2 Qeq omax omax' /\ ods = ods' /\ ous = ous'.
+Proof. exact accepted_inplace_eq_copy. Qed.
+Print Assumptions C12_accepted_inplace_eq_copy.
+
+(* C12_metadata on the observation (either regime, no well-formedness needed) *)
+Theorem C12_accepted_field_metadata :
+  forall ex ip p1 p2 ds us ns sbs bcs nv vals valid vds vm a b k ref
+         omin omax ods ous ons osubs obc ovals ovalid ovds ovm i1 i2,
+  check_C12 (CField ex ip p1 p2 ds us ns sbs bcs nv vals valid vds vm a b k ref
+               (Some ((omin, omax, ods, ous, ons, osubs, obc), ovals, ovalid, ovds, ovm))) = true ->
+  dim2index (mk_reg p1 p2 ds us) a = OK i1 -> dim2index (mk_reg p1 p2 ds us) b = OK i2 ->
+  ons = (if Z.odd k then swap_nth 0%Z i1 i2 ns else ns) /\
+  ous = (if Z.odd k then swap_nth ""%string i1 i2 us else us) /\
+  ods = ds /\ ovds = vds /\ ovm = vm.
+Proof. exact accepted_field_metadata. Qed.
+Print Assumptions C12_accepted_field_metadata.
+
+(* C12_covariance_validity on the observation: the observed validity (C-order list, read on the
+   rotated shape) of target cell rot_index i is the recorded validity of source cell i *)
+Theorem C12_accepted_field_validity :
+  forall ex ip p1 p2 ds us ns sbs bcs nv vals valid vds vm a b k ref om ovals ovalid ovds ovm i1 i2 (i : idx),
+  check_C12 (CField ex ip p1 p2 ds us ns sbs bcs nv vals valid vds vm a b k ref
+               (Some (om, ovals, ovalid, ovds, ovm))) = true ->
+  wf_mesh (in_mesh p1 p2 ds us ns sbs bcs) ->
+  dim2index (mk_reg p1 p2 ds us) a = OK i1 -> dim2index (mk_reg p1 p2 ds us) b = OK i2 ->
+  inb (znat ns) i = true ->
+  of_list true (rot90_shape (znat ns) i1 i2 k) ovalid (rot_index (znat ns) i1 i2 k i)
+  = of_list true (znat ns) valid i.
+Proof. exact accepted_field_validity. Qed.
+Print Assumptions C12_accepted_field_validity.
+
+(* C12_covariance_cells on the observation, scalar fields: the observed value of target cell
+   rot_index i is the recorded value of source cell i *)
+Theorem C12_accepted_field_cells_scalar :
+  forall ex ip p1 p2 ds us ns sbs bcs nv vals valid vds vm a b k ref om ovals ovalid ovds ovm i1 i2 (i : idx) c,
+  check_C12 (CField ex ip p1 p2 ds us ns sbs bcs nv vals valid vds vm a b k ref
+               (Some (om, ovals, ovalid, ovds, ovm))) = true ->
+  wf_mesh (in_mesh p1 p2 ds us ns sbs bcs) ->
+  dim2index (mk_reg p1 p2 ds us) a = OK i1 -> dim2index (mk_reg p1 p2 ds us) b = OK i2 ->
+  (nv <= 1)%nat -> inb (znat ns) i = true -> (c < nv)%nat ->
+  of_list 0%Qc (rot90_shape (znat ns) i1 i2 k ++ [nv]) (qcl ovals) (rot_index (znat ns) i1 i2 k i ++ [c])
+  = of_list 0%Qc (znat ns ++ [nv]) (qcl vals) (i ++ [c]).
+Proof. exact accepted_field_cells_scalar. Qed.
+Print Assumptions C12_accepted_field_cells_scalar.
+
+(* C12_covariance_cells + C12_components_rotated_* + C12_unmapped_components_unchanged on the
+   observation, vector fields: at target cell rot_index i the two mapped components are the exact
+   quarter turn of the two recorded components of source cell i, the others are the recorded ones *)
+Theorem C12_accepted_field_cells_vector :
+  forall ex ip p1 p2 ds us ns sbs bcs nv vals valid vds vm a b k ref om ovals ovalid ovds ovm i1 i2 v1 v2 (i : idx),
+  check_C12 (CField ex ip p1 p2 ds us ns sbs bcs nv vals valid vds vm a b k ref
+               (Some (om, ovals, ovalid, ovds, ovm))) = true ->
+  wf_mesh (in_mesh p1 p2 ds us ns sbs bcs) ->
+  dim2index (mk_reg p1 p2 ds us) a = OK i1 -> dim2index (mk_reg p1 p2 ds us) b = OK i2 ->
+  (1 < nv)%nat -> comp_of vds vm a = OK v1 -> comp_of vds vm b = OK v2 ->
+  inb (znat ns) i = true ->
+  let src := of_list 0%Qc (znat ns ++ [nv]) (qcl vals) in
+  let tgt := of_list 0%Qc (rot90_shape (znat ns) i1 i2 k ++ [nv]) (qcl ovals) in
+  let t := rot_index (znat ns) i1 i2 k i in
+  let co := fst (kturn QcOps k) in let si := snd (kturn QcOps k) in
+  ((v2 < nv)%nat -> tgt (t ++ [v2]) = (si * src (i ++ [v1]) + co * src (i ++ [v2]))%Qc) /\
+  ((v1 < nv)%nat -> v1 <> v2 -> tgt (t ++ [v1]) = (co * src (i ++ [v1]) - si * src (i ++ [v2]))%Qc) /\
+  (forall c, (c < nv)%nat -> c <> v1 -> c <> v2 -> tgt (t ++ [c]) = src (i ++ [c])).
+Proof. exact accepted_field_cells_vector. Qed.
+Print Assumptions C12_accepted_field_cells_vector.
+
+(* the hypotheses are satisfiable: concrete accepted cases (a 2 x 2 two-component field with one
+   invalid cell, k = 1 about the centre; the region in place and copying, k = -1 about (1, 2);
+   a rejected call with coinciding axes) *)
+Example C12_accepted_field_instance :
+  check_C12 (CField true false [0; 0] [8; 4] ["x"; "y"]%string ["m"; "s"]%string [2; 2]%Z [] ""%string
+               2 [1; 2; 3; 4; 5; 6; 7; 8] [true; false; true; true]
+               ["vx"; "vy"]%string [("vx", "x"); ("vy", "y")]%string "x" "y" 1 None
+               (Some (([2; -2], [6; 6], ["x"; "y"]%string, ["s"; "m"]%string, [2; 2]%Z, [], ""%string),
+                      [-4; 3; -8; 7; -2; 1; -6; 5], [false; true; true; true],
+                      ["vx"; "vy"]%string, [("vx", "x"); ("vy", "y")]%string))) = true /\
+  wf_inputb [0; 0] [8; 4] ["x"; "y"]%string ["m"; "s"]%string [2; 2]%Z = true /\
+  dim2index (mk_reg [0; 0] [8; 4] ["x"; "y"]%string ["m"; "s"]%string) "x" = OK 0%nat /\
+  dim2index (mk_reg [0; 0] [8; 4] ["x"; "y"]%string ["m"; "s"]%string) "y" = OK 1%nat /\
+  comp_of ["vx"; "vy"]%string [("vx", "x"); ("vy", "y")]%string "x" = OK 0%nat /\
+  comp_of ["vx"; "vy"]%string [("vx", "x"); ("vy", "y")]%string "y" = OK 1%nat.
+Proof. exact accepted_field_instance. Qed.
+Print Assumptions C12_accepted_field_instance.
+
+Example C12_accepted_region_instance :
+  check_C12 (CRegion true true [0; 0] [8; 4] ["x"; "y"]%string ["m"; "s"]%string "x" "y" (-1) (Some [1; 2])
+               (Some ([-1; -5], [3; 3], ["x"; "y"]%string, ["s"; "m"]%string))) = true /\
+  check_C12 (CRegion true false [0; 0] [8; 4] ["x"; "y"]%string ["m"; "s"]%string "x" "y" (-1) (Some [1; 2])
+               (Some ([-1; -5], [3; 3], ["x"; "y"]%string, ["s"; "m"]%string))) = true /\
+  wf_inputb [0; 0] [8; 4] ["x"; "y"]%string ["m"; "s"]%string [2; 2]%Z = true /\
+  rot_reference (mk_reg [0; 0] [8; 4] ["x"; "y"]%string ["m"; "s"]%string) (Some [1; 2]) = OK [1; 2].
+Proof. exact accepted_region_instance. Qed.
+Print Assumptions C12_accepted_region_instance.
+
+Example C12_accepted_reject_instance :
+  check_C12 (CRegion true false [0; 0] [8; 4] ["x"; "y"]%string ["m"; "s"]%string "x" "x" 1 None None) = true.
+Proof. exact accepted_reject_instance. Qed.
+Print Assumptions C12_accepted_reject_instance.
